@@ -369,7 +369,7 @@ impl Engine for C12 {
         vec!["simdbg", "simrel"]
     }
     fn runs(&self, tier: Tier, _profile: &str) -> u64 {
-        if tier == Tier::Thorough { 600_000 } else { 8_000 }
+        if tier == Tier::Thorough { 150_000 } else { 8_000 }
     }
 
     fn generate(&self, seed: u64, i: u64, tier: Tier) -> Value {
